@@ -252,6 +252,17 @@ def main():
             res['files'] = pool.map(one_file, list(enumerate(files)), chunksize=1)
     if 'lit' in payload:
         res['lit'] = lit_sweep(payload['lit'])
+    if 'probe' in payload:
+        # one extra line appended to a complete rule block: what does MerchantEngine.parse make of it?
+        obs = []
+        for line in payload['probe']:
+            content = '[Probe]\nmatch: true\ncategory: Z0\nsubcategory: Z1\ntags: z2\n' + line + '\n'
+            try:
+                eng = parse_merchants(content)
+                obs.append([[r.name, r.merchant, r.category, r.subcategory, sorted(r.tags)] for r in eng.rules])
+            except Exception as e:  # noqa
+                obs.append(None)
+        res['probe'] = obs
     if 'upper' in payload:
         res['upper'] = [s.upper() for s in payload['upper']]
     import shutil
